@@ -876,6 +876,12 @@ func shapeOfKind(kind string) interface{} {
 		return map[float64]error{2.5: nil, 1.5: errors.New("e")}
 	case "intifacemap":
 		return map[int]interface{}{1: 2, 4: "four"}
+	case "nilifaceptr": // a pointer to an interface value that is nil
+		var st fmt.Stringer
+		return &st
+	case "nilerrptr":
+		var er error
+		return &er
 	case "ptrself": // a defined pointer type that points at itself (no interface in between)
 		var q selfPtr
 		q = &q
